@@ -233,6 +233,9 @@ func (g *g2l) derefUse(stack []ast.Node) bool {
 				return false
 			}
 			fn, _ := g.info.Uses[fid].(*types.Func)
+			if g.primDerefArg(fn) { // go2lean_env.go
+				return true
+			}
 			if fn == nil || fn.Type().(*types.Signature).Variadic() {
 				return false
 			}
@@ -269,6 +272,8 @@ func (f *g2lFn) ptrVal(e ast.Expr) bool {
 		if tv, ok := f.g.info.Types[x.X]; ok && tv.Type != nil {
 			return f.g.nonNilSlice(tv.Type)
 		}
+	default:
+		return f.ptrValOwn(e) // go2lean_own.go: new(T), &T{…}
 	}
 	return false
 }
@@ -402,6 +407,12 @@ func (f *g2lFn) nilTest(e ast.Expr, op token.Token) (string, bool) {
 
 // addrOf translates `&x`.
 func (f *g2lFn) addrOf(x *ast.UnaryExpr) string {
+	if s, ok := f.addrOfOwn(x); ok { // go2lean_own.go: &T{…}, &x after the last assignment to x
+		return s
+	}
+	if s, ok := f.addrOfEnv(x); ok { // go2lean_env.go: &T{…}
+		return s
+	}
 	id, ok := ast.Unparen(x.X).(*ast.Ident)
 	if !ok {
 		f.fail("`%s`: the address of something other than a local variable (aliasing is outside the subset)", f.src(x))
@@ -410,7 +421,7 @@ func (f *g2lFn) addrOf(x *ast.UnaryExpr) string {
 	if o == nil || f.names[o] == "" || o.Parent() == f.g.pkg.Scope() {
 		f.fail("`%s`: the address of something other than a local variable", f.src(x))
 	}
-	if f.mutated[o] && !f.addrSafe(x, o) { // go2lean_effects.go: assigned only before this point
+	if f.mutated[o] && !(f.g.effectsOn() && f.addrSafe(x, o)) { // go2lean_effects.go: assigned only before this point
 		f.fail("`%s`: the variable is assigned after its declaration (the pointer would see the change)", f.src(x))
 	}
 	if f.inLoop > 0 {
@@ -492,6 +503,9 @@ func (f *g2lFn) recvArg(c *ast.CallExpr, se *ast.SelectorExpr, sel *types.Select
 			// x.M() with x addressable: (&x).M()
 			if !isPrim && f.g.paramIsVal(fn, -1) {
 				return g2lPar(f.expr(se.X))
+			}
+			if isPrim && f.g.env().AddrRecvPrims { // go2lean_env.go
+				return "(some " + g2lPar(f.expr(se.X)) + ")"
 			}
 			f.fail("`%s` takes the address of its receiver", f.src(c))
 		case g2lIsPtr(xt):
@@ -636,11 +650,17 @@ func (g *g2l) headerExtra() string {
 			break
 		}
 	}
+	if g.ownUsed() {
+		b.WriteString(g2lOwnHeader) // go2lean_own.go
+	}
 	if len(g.cfg.Named) > 0 {
 		b.WriteString("  * the named types in namedTypes are opaque: values of the Lean type given\n" +
 			"    there, touched only by the primitives of the configuration.\n")
 	}
 	b.WriteString(g.headerEff()) // go2lean_effects.go
+	if g.envOn() {               // go2lean_env.go
+		b.WriteString(G2LEnvHeader)
+	}
 	return b.String()
 }
 
@@ -676,6 +696,10 @@ func (g *g2l) emitExtra(w func(string, ...any), okUnits []string) {
 	}
 	g.emitInOutFacts(w, okSet)
 	g.emitEffFacts(w, okSet) // go2lean_effects.go
+	if g.ownUsed() {
+		g.emitOwnFacts(w, okSet) // go2lean_own.go
+	}
+	g.emitEnvFacts(w, okSet) // go2lean_env.go
 	w("/-- opaque named types in use: Go type, its Go declaration, the Lean type that stands for it -/\n")
 	w("def namedTypes : List (String × String × String) := [")
 	for i, k := range sortedKeys(g.x.namedUsed) {
